@@ -214,6 +214,11 @@ func setup(sc *Script) *run {
 				each(&s.Par[g][j])
 			}
 		}
+		for g := range s.Bg {
+			for j := range s.Bg[g] {
+				each(&s.Bg[g][j])
+			}
+		}
 	}
 	for i := range sc.WFaults {
 		if sc.WFaults[i].Hold {
@@ -1280,6 +1285,7 @@ func Run(sc *Script) []trace.Event {
 	r.rec.Emit(trace.Event{"ev": "cfg", "id": sc.ID, "kind": sc.Kind, "alive": ints(sc.Brokers), "boot": ints(sc.Boot), "topics": nz(topics),
 		"coord": sc.Coord, "txn": sc.Txn, "ctrlr": sc.Ctrlr, "vtab": r.vtabEvent(allBrokers(sc)), "crange": crange,
 		"ttlMs": sc.TTLMs, "idleMs": sc.IdleMs, "ops": nz(plans), "metaTopics": mt, "metaFiltered": sc.MetaTopics != nil})
+	var bg sync.WaitGroup
 	for i := range sc.Steps {
 		s := &sc.Steps[i]
 		switch {
@@ -1297,6 +1303,30 @@ func Run(sc *Script) []trace.Event {
 				}(s.Par[g])
 			}
 			wg.Wait()
+		case len(s.Bg) > 0:
+			for g := range s.Bg {
+				bg.Add(1)
+				go func(list []Op) {
+					defer bg.Done()
+					for j := range list {
+						r.runOp(&list[j])
+					}
+				}(s.Bg[g])
+			}
+		case s.Join:
+			bg.Wait()
+		case s.WaitArrived != 0:
+			select {
+			case <-r.arrived[s.WaitArrived]:
+			case <-time.After(3 * time.Second):
+			}
+		case s.CensusMs > 0:
+			time.Sleep(time.Duration(s.CensusMs) * time.Millisecond)
+			open := []interface{}{}
+			for _, c := range r.net.Open(r.sc.ID) {
+				open = append(open, c.ID)
+			}
+			r.rec.Emit(trace.Event{"ev": "census", "open": open})
 		case s.Move != nil:
 			r.move(s.Move)
 		case s.SleepMs > 0:
@@ -1320,6 +1350,7 @@ func Run(sc *Script) []trace.Event {
 			r.tr.CloseIdleConnections()
 		}
 	}
+	bg.Wait()
 	r.rec.Emit(trace.Event{"ev": "end"})
 	// tear down: stop the discover loop and every connection
 	r.tr.CloseIdleConnections()
